@@ -56,7 +56,11 @@ def check_normalised(api, sh, stats, tol=1e-8):
     for m in range(M):
         col = [float(x) for x in sh.coeffs[:, m]]
         for a, comp in enumerate(comps):
-            s, cond = closed_form_selfoverlap(sh.angmom, comp, exps, col)
+            try:
+                s, cond = closed_form_selfoverlap(sh.angmom, comp, exps, col)
+            except (OverflowError, ZeroDivisionError, ValueError):
+                illcond = True
+                continue
             if not (cond < 1e4) or not math.isfinite(s) or s <= 0:
                 illcond = True
                 continue
